@@ -51,6 +51,7 @@ type Val struct {
 	GT    types.Type // Go type (may be nil for spec-only values)
 	Clo   *Closure   // function value known to be this closure / function
 	Iter  *iterRec   // range iterator
+	Row   *Term      // spec functions: the backing array of a slice parameter, passed as a hidden argument
 }
 
 type Closure struct {
@@ -124,6 +125,13 @@ func (X *Exec) heap(s *State, name string, srt *Sort) *Term {
 
 func (X *Exec) preHeap(name string, srt *Sort) *Term {
 	if t, ok := X.pre[name]; ok {
+		return t
+	}
+	if X.LockMode && strings.HasPrefix(name, "LK|") {
+		// lock mode: the calling goroutine holds no lock on entry except those named by `holds`
+		t := X.E.TS.ConstArray(srt, X.E.TS.IntLit(0))
+		X.pre[name] = t
+		X.heapSorts[name] = srt
 		return t
 	}
 	t := X.E.TS.Const(sanitize(name)+"@pre", srt)
